@@ -14,6 +14,8 @@ pub mod c16;
 pub mod c17;
 pub mod c20;
 pub mod common;
+pub mod fuzz_oracles;
+pub mod fuzz_stage;
 
 use crate::engine::Tier;
 use crate::findings::Findings;
@@ -59,6 +61,21 @@ pub fn replay(path: &str) -> i32 {
     };
     let findings = Findings::load();
     let prop = v["property"].as_str().unwrap_or("").to_string();
+    if let Some(b) = v["case"]["fuzz_input_b64"].as_str() {
+        let target = v["case"]["fuzz_target"].as_str().unwrap_or("");
+        let data = fuzz_stage::unb64(b);
+        return match fuzz_stage::run_oracle(target, &data) {
+            Some((p, what)) => {
+                println!("VIOLATION property={} replay={}", p, path);
+                eprintln!("  what: {}", what);
+                1
+            }
+            None => {
+                eprintln!("gev: replay passes (no failure reproduced)");
+                0
+            }
+        };
+    }
     match prop.as_str() {
         "C01" => c01::replay(&v, path, &findings),
         "C02" => c02::replay(&v, path, &findings),
@@ -170,4 +187,80 @@ pub fn c20_emit(v: &serde_json::Value) -> i32 {
     let out = c20::emit_artefacts(v);
     println!("{}", out);
     0
+}
+
+/// seed corpus for the libFuzzer targets: printed generator output (templates: every file of generated groups)
+pub fn write_corpus(kind: &str, dir: &str, count: usize, seed: u64) -> i32 {
+    use proptest::strategy::{Strategy, ValueTree};
+    use proptest::test_runner::{Config, RngAlgorithm, TestRng, TestRunner};
+    let _ = std::fs::create_dir_all(dir);
+    let mut bytes = [0u8; 32];
+    bytes[..8].copy_from_slice(&crate::util::splitmix64(seed ^ 0xC0).to_le_bytes());
+    let mut runner = TestRunner::new_with_rng(Config::default(), TestRng::from_seed(RngAlgorithm::ChaCha, &bytes));
+    let mut n = 0;
+    match kind {
+        "tmpl" => {
+            let mut cfg = crate::gen::wxml::WxmlCfg::new(2, 2);
+            cfg.slot_refs = true;
+            let st = (crate::gen::wxml::group(&cfg), proptest::prelude::any::<u64>());
+            while n < count {
+                let Ok(t) = st.new_tree(&mut runner) else { break };
+                let (g, style) = t.current();
+                for (_, src) in crate::compile::print_group(&g, style) {
+                    if !src.is_empty() && src.len() < 1500 {
+                        let _ = std::fs::write(format!("{}/t{:04}", dir, n), src);
+                        n += 1;
+                    }
+                }
+            }
+        }
+        "wxss" => {
+            let mut cfg = crate::gen::css::CssCfg::new();
+            cfg.hosts = true;
+            cfg.imports = true;
+            let st = (crate::gen::css::sheet(&cfg), proptest::prelude::any::<u64>(), proptest::prelude::any::<u8>());
+            while n < count {
+                let Ok(t) = st.new_tree(&mut runner) else { break };
+                let (sheet, style, o) = t.current();
+                let text = crate::model::css::print(&sheet, style).text;
+                if text.len() < 1500 {
+                    let mut data = vec![o];
+                    data.extend_from_slice(text.as_bytes());
+                    let _ = std::fs::write(format!("{}/s{:04}", dir, n), data);
+                    n += 1;
+                }
+            }
+        }
+        _ => return 2,
+    }
+    eprintln!("gev: wrote {} corpus files to {}", n, dir);
+    0
+}
+
+pub fn fuzz_replay(target: &str, data: &[u8]) -> i32 {
+    let r = match target {
+        "tmpl_positions" => std::str::from_utf8(data).ok().and_then(fuzz_oracles::tmpl_positions),
+        "tmpl_roundtrip" => std::str::from_utf8(data).ok().and_then(fuzz_oracles::tmpl_roundtrip),
+        "wxss_map" => {
+            if data.is_empty() {
+                None
+            } else {
+                std::str::from_utf8(&data[1..]).ok().and_then(|s| fuzz_oracles::wxss_map(s, data[0]))
+            }
+        }
+        _ => {
+            eprintln!("unknown fuzz target {}", target);
+            return 2;
+        }
+    };
+    match r {
+        Some((prop, what)) => {
+            println!("VIOLATION property={} {}", prop, what);
+            1
+        }
+        None => {
+            println!("no violation");
+            0
+        }
+    }
 }
